@@ -7,7 +7,7 @@ SIMCORE = os.path.join(VERIF, "simcore")
 WASI_DEFS = ["-DHAS_UNISTD=1", "-DHAS_SYSUIO=1", "-DHAS_SYSTIME=1", "-DHAS_SYSRESOURCE=1", "-DHAS_STRNDUP=1", "-DHAS_FCNTL=1", "-DHAS_LSTAT=1",
              "-DHAS_GETENTROPY=1", "-DHAS_TIMESPEC=1", "-DWASM_THREADS_PTHREADS"]
 WRAP_WASI = ("exit open close read write readv writev lseek opendir readdir closedir mkdir rmdir unlink rename symlink readlink stat lstat fstat "
-             "getentropy getrandom fsync fdatasync strndup realloc").split()
+             "getentropy getrandom fsync fdatasync strndup realloc malloc").split()
 PROPS = {"C12": (20000, 600000), "C13": (12000, 400000), "C14": (12000, 400000), "C15": (10000, 300000)}
 
 
